@@ -152,6 +152,7 @@ typedef struct unit {
     ABT_thread lp_partner; /* a looping unit's partner for directed yields, parked in lp_hold (no scheduler) */
     ABT_pool lp_hold;
     volatile int lp_stop, lp_on;
+    int many_freed, spin;
 } unit_t;
 typedef struct {
     unit_t *u;
@@ -192,6 +193,7 @@ static void pause_any(int who)
 }
 static ABT_pool pool_of(unit_t *u) { return g_pool[u->pool % g_nes][0]; }
 static int pool_size(ABT_pool p);
+static int g_jm; /* exec option jm=1: see generate() */
 static void lp_partner_body(void *a)
 {
     unit_t *u = (unit_t *)a;
@@ -315,28 +317,59 @@ static void do_revive(int who, unit_t *c)
 /* everything `who` has to reap, in creation order */
 static void reap_children(int who)
 {
-    if (rnd(4) == 0) {
-        /* join them all with one call first; null handles in the list are skipped */
+    if (g_jm || rnd(3) == 0) {
+        /* join (or free) them all with one call first; null handles in the list are skipped */
         ABT_thread list[2 * MAXU + 2];
-        unit_t *cs[MAXU + 1];
-        int n = 0, nc = 0;
+        unit_t *cs[MAXU + 1], *of[2 * MAXU + 2];
+        int n = 0, nc = 0, anyrev = 0;
         for (int i = 1; i <= g_nu; i++) {
             unit_t *c = &U[i];
             if (c->reaper != who || !c->named)
                 continue;
             while (!c->created)
                 pause_any(who);
-            if (rnd(3) == 0)
-                list[n++] = ABT_THREAD_NULL;
-            list[n++] = c->th;
             cs[nc++] = c;
+            anyrev |= c->revive;
         }
-        if (nc) {
+        /* any order (a tasklet that is still running before a ULT that is still running, ...) */
+        for (int k = nc - 1; k > 0; k--) {
+            int j = rnd(k + 1);
+            unit_t *t = cs[k];
+            cs[k] = cs[j];
+            cs[j] = t;
+        }
+        for (int k = 0; k < nc; k++) {
+            if (rnd(3) == 0) {
+                of[n] = NULL;
+                list[n++] = ABT_THREAD_NULL;
+            }
+            of[n] = cs[k];
+            list[n++] = cs[k]->th;
+        }
+        int many_free = nc && !anyrev && rnd(2);
+        if (nc && !many_free) {
             for (int k = 0; k < nc; k++)
                 EV("\"e\":\"JoinCall\",\"by\":%d,\"u\":%d", who, cs[k]->id);
             CHK(ABT_thread_join_many(n, list));
             for (int k = 0; k < nc; k++)
                 EV("\"e\":\"JoinRet\",\"by\":%d,\"u\":%d,\"st\":%d,\"tok\":%d", who, cs[k]->id, state_of(cs[k]->th), cs[k]->token);
+        } else if (nc) {
+            for (int k = 0; k < nc; k++)
+                EV("\"e\":\"FreeCall\",\"by\":%d,\"u\":%d", who, cs[k]->id);
+            CHK(ABT_thread_free_many(n, list));
+            for (int k = 0; k < n; k++) {
+                unit_t *c = of[k];
+                if (!c)
+                    continue;
+                EV("\"e\":\"FreeRet\",\"by\":%d,\"u\":%d,\"null\":%d,\"tok\":%d", who, c->id, list[k] == ABT_THREAD_NULL, c->token);
+                c->th = ABT_THREAD_NULL;
+                c->many_freed = 1;
+                if (!c->accounted) { /* cancelled before it could finish */
+                    c->accounted = 1;
+                    __sync_sub_and_fetch(&g_live, 1);
+                }
+                lp_cleanup(who, c);
+            }
         }
     }
     for (int i = 1; i <= g_nu; i++) {
@@ -345,6 +378,8 @@ static void reap_children(int who)
             continue;
         while (!c->created)
             pause_any(who);
+        if (c->many_freed)
+            continue;
         if (c->revive) {
             do_join(who, c);
             do_revive(who, c);
@@ -451,7 +486,9 @@ static void body(void *arg)
             for (int i = 0; i < u->ns; i++)
                 if (u->s[i].op == OP_CREATE)
                     do_create(u->id, &U[u->s[i].k]);
-        abtv_point();
+        /* some tasklets are still running when their reaper starts to wait for them */
+        for (int k = u->spin ? u->spin : (u->id * 7 + u->pool) % 5 == 0 ? 30 : 1; k > 0; k--)
+            abtv_point();
     }
     /* the value a joiner must see */
     u->token = u->id * 10 + a->inc;
@@ -2060,6 +2097,34 @@ static void generate(void)
     g_ext_done = 0;
     g_live = 0;
     g_joining = 0;
+    g_jm = (int)opt_long("jm", 0);
+    if (g_jm) {
+        /* one ULT creates tasklets and ULTs that take a while, all over the streams, and then
+         * waits for all of them with one ABT_thread_join_many / free_many call; another ULT
+         * keeps yielding so that the streams the joiner leaves are not idle */
+        g_nu = 4 + rnd(5);
+        g_have_ext = 0;
+        for (int i = 1; i <= g_nu; i++) {
+            unit_t *u = &U[i];
+            u->id = i;
+            u->named = 1;
+            u->pool = rnd(g_nes);
+            u->kind = U_ULT;
+        }
+        add_op(&U[2], OP_YIELD, 10 + rnd(30));
+        for (int i = 3; i <= g_nu; i++) {
+            unit_t *u = &U[i];
+            u->kind = rnd(2) ? U_TASK : U_ULT;
+            u->creator = 1;
+            u->reaper = 1;
+            add_op(&U[1], OP_CREATE, i);
+            if (u->kind == U_ULT)
+                add_op(u, OP_YIELD, 2 + rnd(8));
+            else
+                u->spin = 10 + rnd(80);
+        }
+        return;
+    }
     int special_budget = 2;
     for (int i = 1; i <= g_nu; i++) {
         unit_t *u = &U[i];
